@@ -129,7 +129,44 @@ func (o *Once) Do(f func()) {
 }
 
 type WaitGroup = sync.WaitGroup
-type Pool = sync.Pool
+
+// Pool is a deterministic model of sync.Pool for the instrumented build (one
+// goroutine runs at a time there): Get hands out the most recently Put item,
+// which is one of the behaviours the real pool may show and the one that
+// shares the most; Get and Put are scheduling points. Pools are emptied by
+// verifrt.Reset between executions.
+type Pool struct {
+	New        func() interface{}
+	items      []interface{}
+	registered bool
+}
+
+func (p *Pool) Get() interface{} {
+	verifrt.Tick(-1)
+	if n := len(p.items); n > 0 {
+		x := p.items[n-1]
+		p.items[n-1] = nil
+		p.items = p.items[:n-1]
+		return x
+	}
+	if p.New != nil {
+		return p.New()
+	}
+	return nil
+}
+
+func (p *Pool) Put(x interface{}) {
+	if x == nil {
+		return
+	}
+	if !p.registered {
+		p.registered = true
+		verifrt.ResetHooks = append(verifrt.ResetHooks, func() { p.items = nil })
+	}
+	p.items = append(p.items, x)
+	verifrt.Tick(-1)
+}
+
 type Map = sync.Map
 type Cond = sync.Cond
 
